@@ -108,3 +108,11 @@ pub(crate) fn p_standstill(pool: &PoolImpl) {
 pub(crate) fn p_standstill(pool: &PoolImpl) {
     block_on_ready(pool.recover_from_standstill())
 }
+#[cfg(kani)]
+pub(crate) fn p_add_block(pool: &mut PoolImpl, b: BlockId, p: BlockId) {
+    pool.add_block(b, p)
+}
+#[cfg(not(kani))]
+pub(crate) fn p_add_block(pool: &mut PoolImpl, b: BlockId, p: BlockId) {
+    block_on_ready(pool.add_block(b, p))
+}
